@@ -76,4 +76,13 @@ example : ((R.run (R.init .rr false)
     [.update ["a", "b", "c"], .setUp "a" true, .setUp "b" true, .setUp "c" true, .checkDone "a" ["a"], .checkDone "b" ["b", "a"],
      .checkDone "c" ["c", "a", "b"], .route 1 0, .route 2 0, .route 3 0, .route 4 0]).map (·.sent)) = some ["c", "a", "b", "c"] := by decide
 
+/-- What the moving average is fed: every timed call form reports to the target it was scheduled to
+    (also on failure, so an unreachable target is reset to the maximum), and starts its clock after
+    director() has returned — the sample is the duration of the transport call alone, not of a wait
+    for a live target or a Fallback pause inside the Client. Read from client.go on every run. -/
+theorem C17_samples_are_call_durations :
+    (Gen.reportsCall && Gen.reportsCallWithContext && Gen.reportsPing && Gen.reportsNewStream &&
+     Gen.clockStartsAfterDirectorCall && Gen.clockStartsAfterDirectorCallWithContext &&
+     Gen.clockStartsAfterDirectorPing && Gen.clockStartsAfterDirectorNewStream) = true := by decide
+
 end RpcVerif.Props
